@@ -236,6 +236,16 @@ namespace logmessage {
             [[nodiscard]] std::string formatMessage() const override;
         };
 
+        class RecursiveMacro : public PreprocBase {
+            static const loglevel level = loglevel::error;
+            static const size_t errorCode = 10015;
+            std::string macroname;
+        public:
+            RecursiveMacro(LogLocationInfo loc, std::string macroname) :
+                PreprocBase(level, errorCode, std::move(loc)), macroname(std::move(macroname)) {}
+            [[nodiscard]] std::string formatMessage() const override;
+        };
+
         class UnknownPragma : public PreprocBase
         {
             static const loglevel level = loglevel::warning;
